@@ -143,16 +143,30 @@ var c18ContentTypes = []string{
 	"application/soap+xml; charset=utf-8", "text/plain", "text/html", "application/JSON",
 	"application/XML", "xml/json", "application/jsonxml", "xmljson", "x", "application/octet-stream",
 	"js on", "xm", "jso", "image/svg+xml",
+	// letter case (media types are case-insensitive, RFC 9110 8.3.1; /repo f13c292)
+	"application/Json", "Application/JSON; Charset=UTF-8", "TEXT/XML", "text/Xml", "application/XML+JSON", "APPLICATION/SOAP+XML",
+	"application/jSoN", "X", "XM", "JSO", "image/SVG+XML",
+}
+
+// c18ContentTypesExotic: non-ASCII and invalid UTF-8 around / inside the tokens (in-package lanes
+// only: these do not travel over a real connection). strings.ToLower works rune by rune: the
+// Kelvin sign lower-cases to an ASCII 'k', the dotted capital I to an ASCII 'i', other letters
+// to non-ASCII letters, invalid bytes become U+FFFD.
+var c18ContentTypesExotic = []string{
+	"application/\u212Ajson", "application/JS\u212AON", "text/X\u0130ML", "\u0130xml", "ÄPPLICATION/XML", "application/ÅJSON",
+	"text/xml\xff", "\xffJSON\xfe", "js\xc3on", "X\xe2\x84ML", "ΧML", "ЈSON", "application/xmŁ", "jſon", "JſON", "ｘｍｌ", "ＪＳＯＮ",
+	"application/XML\u212A", "x\u0130ml+JSON",
 }
 
 // c18CtClass is the oracle's own reading of "content types {json, xml, other, none}".
 func c18CtClass(ct string) string {
+	lc := strings.ToLower(ct) // media types are case-insensitive
 	switch {
 	case ct == "":
 		return "none"
-	case strings.Contains(ct, "json"):
+	case strings.Contains(lc, "json"):
 		return "json"
-	case strings.Contains(ct, "xml"):
+	case strings.Contains(lc, "xml"):
 		return "xml"
 	}
 	return "other"
@@ -350,8 +364,10 @@ func TestVerif_C18_bind(t *testing.T) {
 		cached := r.Intn(2) == 0
 		readOK := r.Intn(6) != 0
 		ct := verifh.Pick(r, c18ContentTypes)
-		if r.Intn(10) == 0 {
-			ct = verifh.RandBytes(r, r.Intn(12), "jsonxml/+; -")
+		if x := r.Intn(10); x == 0 {
+			ct = verifh.RandBytes(r, r.Intn(12), "jsonxmlJSONXML/+; -")
+		} else if x == 1 {
+			ct = verifh.Pick(r, c18ContentTypesExotic)
 		}
 		body := verifh.Pick(r, c18Bodies)
 		// scripted unmarshaller outcome (the model's "outcome as a parameter", literally):
@@ -602,9 +618,26 @@ func TestVerif_C18_bind(t *testing.T) {
 	}
 	// content-type → unmarshaller choice, on its own, over a wider random alphabet
 	for k := 0; k < verifh.N(3000, 50000); k++ {
-		ct := verifh.RandBytes(r, r.Intn(14), "jsonxmlJX/+;= ")
-		if r.Intn(4) == 0 {
+		ct := verifh.RandBytes(r, r.Intn(14), "jsonxmlJSONXML/+;= ")
+		switch r.Intn(6) {
+		case 0:
 			ct = verifh.Pick(r, c18ContentTypes)
+		case 1:
+			ct = verifh.Pick(r, c18ContentTypesExotic)
+		case 2: // random runes: ASCII letters of both cases, the two runes that lower-case into ASCII, others, invalid bytes
+			ct = ""
+			for i, n := 0, r.Intn(10); i < n; i++ {
+				ct += verifh.Pick(r, []string{"j", "s", "o", "n", "x", "m", "l", "J", "S", "O", "N", "X", "M", "L", "\u212A", "\u0130", "Å", "ſ", "\xff", "\xc3", "/", "+"})
+			}
+		}
+		if ct != strings.ToLower(ct) {
+			hist.Count("ctlane=mixed-case")
+		}
+		for i := 0; i < len(ct); i++ {
+			if ct[i] >= 0x80 {
+				hist.Count("ctlane=non-ascii")
+				break
+			}
 		}
 		c := C()
 		var got string
@@ -621,5 +654,5 @@ func TestVerif_C18_bind(t *testing.T) {
 		s.Case("c18ct "+verifh.Hex(ct), got, got == want, "", true, fmt.Sprintf("ct=%q -> %s", ct, got))
 	}
 	s.Finish()
-	hist.need(t, "bound=success", "bound=errorR", "bound=errorC", "ret=unm", "ret=read", "ret=s0", "ret=transformer", "204", "state=S", "state=E", "state=U", "ct=json", "ct=xml", "ct=other", "ct=none", "ctlane=xml", "ctlane=json")
+	hist.need(t, "bound=success", "bound=errorR", "bound=errorC", "ret=unm", "ret=read", "ret=s0", "ret=transformer", "204", "state=S", "state=E", "state=U", "ct=json", "ct=xml", "ct=other", "ct=none", "ctlane=xml", "ctlane=json", "ctlane=mixed-case", "ctlane=non-ascii")
 }
